@@ -219,7 +219,10 @@ OpStep(e) ==
       \* HashTable: the hash the caller supplied (plan e.n of the class; untracked elements always use plan 0)
       hq == IF hd.kind = "table" /\ e.k >= 0 THEN PlanFn(hd, IF hd.tr = 1 /\ e.n = 1 THEN 1 ELSE 0)[e.k] ELSE [pos |-> 0, tag |-> 0]
       \* ---------- abstract step
+      chkPanic == e.pn \in {"", "index", "dup", "noteq"} \/ (e.pn = "consumer" /\ e.op \in {"par_drain", "into_par_iter"} /\ e.n = 2)
+      \* (an unexpected panic leaves the result fields unset: the abstract step is not evaluated on them)
       absr ==
+        IF ~chkPanic THEN AR(A, {}, FALSE) ELSE
         CASE e.op = "iter" -> AR(A, {}, IterOK(e, pre, A))
           [] e.op \in {"get_many_mut", "get_many_kv_mut"} -> GetManyAbs(e, A, obsT[t])
           [] e.op = "clone" -> AR(A, AllIds(A2), e.pn = "")              \* table u is replaced by a clone of t
@@ -342,6 +345,7 @@ OpStep(e) ==
       \* C08: an absent key inserted while len < capacity performs no allocation
       chkNoAlloc == (e.op \in InsertLike /\ ~Has(A, e.k) /\ prex.len < prex.cap) => e.al = <<>>
       chkReserve ==
+        IF ~chkPanic THEN TRUE ELSE
         CASE e.op = "reserve" -> obsX[t].cap >= obsX[t].len + e.n
           [] e.op = "with_capacity" -> obsX[t].cap >= e.n
           [] e.op = "try_reserve" ->
@@ -369,7 +373,6 @@ OpStep(e) ==
       \* within a fixed multiple (deliberately generous: 16x) of the space needed for nk elements
       chkChurn == (hd.churn = 1 /\ hd.nk > 0) =>
                     \A i \in 1..hd.nt : lvAfter(i) => obsX[i].asz <= 16 * LayoutSize(hd.es, hd.ea, CapToBuckets(hd.nk, hd.es))
-      chkPanic == e.pn \in {"", "index", "dup", "noteq"} \/ (e.pn = "consumer" /\ e.op \in {"par_drain", "into_par_iter"} /\ e.n = 2)
       opp == OpProp(e.op, hd.kind)
       \* (a table whose observed state did not change was checked when it last changed)
       invd == UNION {InvDiag(obsT[i], FALSE, hd.kind # "table") : i \in {j \in 1..hd.nt : lvAfter(j) /\ obsT[j] # tb[j]}}
